@@ -21,6 +21,21 @@ CHECKS = {
  "C20": ("E2-history", "model_checking", "bounded exhaustive histories with a reference accounting model",
          "discarded() is checked monotone and the priced steps (increase_discarded, None-release, too-small release, discard_freelist) are checked exactly on every enumerated history; discarded ranges are tracked and must never be handed out again",
          "unpriced steps only checked for monotonicity", "6 C20"),
+ "C02": ("E1-schedule", "model_checking", "stateless preemption-bounded exploration of thread schedules of the real sync::Arena under a controlled scheduler; shadow heap, write-into-live and wild-access oracles",
+         "every schedule with <= 3 preemptions (pairs) / <= 2 (triples) [thorough: 4-5 / 3] of 2-3 logical threads running 1-2 operations each on one shared arena, from 5+ initial free-list shapes, both list policies and None, both layouts; scheduling points are exactly the arena's atomic accesses",
+         "sequentially consistent interleavings only; <= 3 threads, <= 2 operations per thread; Backoff shim; weak CAS treated as strong", "6 C02"),
+ "C07": ("E1-schedule", "model_checking", "same exploration; non-termination oracle: all unfinished threads parked (or fair event cap) => solo budget => hang",
+         "every schedule within the same bounds, with programs that retain allocations, finish early or call discard_freelist; a thread is parked only after a wait-loop iteration that overlapped no memory-changing access, so 'everybody parked' proves that nobody can make progress",
+         "fairness = forced hand-over after 250 consecutive events; event cap 4000 per execution reported as hang", "6 C07"),
+ "C12": ("E1-schedule", "model_checking", "same exploration with a vector-clock happens-before monitor fed by the memory orderings the code passes (C++20 release sequences)",
+         "on every explored schedule every pair of conflicting accesses with a plain side (arena zeroing, owner fill / last read, teardown) must be ordered by the happens-before relation derived from the orderings written in the source; clone/drop programs included",
+         "decides SC executions only; orderings taken from the hooked call sites", "6 C12"),
+ "C13": ("E1-schedule", "model_checking", "preemption-bounded exploration of clone/drop/owned-handle programs: teardown exactly once, never early, no access after it",
+         "every schedule with <= 3 (pairs) / 2 (triples) preemptions of threads that own arena values, clone them, allocate owned buffers and drop everything in all orders; teardown hook must fire exactly once, only when no arena value is alive, and nothing may touch the memory afterwards",
+         "single-threaded release accounting is checked by the E2 release oracle inside C01-style histories (flag O_RELEASE) in the same command", "6 C13"),
+ "C14": ("grid", "model_checking", "exhaustive small-scope enumeration of buffer methods x values x fill levels x buffer sources with whole-image before/after comparison",
+         "every put/write/get of 10 integer types x 3 byte orders, u8/i8, put_slice and io::Write of every length, set_len to every length, align_to/put/put_aligned over 100+ layouts and 8 varint types, at every fill level of buffers of capacity 0..=20 taken from fresh, padded and recycled space, borrowed and owned, sync and unsync",
+         "value alphabet boundary-dense, not exhaustive over 2^128", "6 C14"),
 }
 PENDING = {}  # id -> reason (filled while the build is in progress)
 ALL = ["C%02d" % i for i in range(1, 21)]
@@ -49,6 +64,8 @@ m = {
    "add_only": True,
  },
  "engines": [
+   {"name": "E1-schedule", "path": "/verif/mc/src/sched.rs", "serves_properties": sorted(k for k,v in CHECKS.items() if v[0]=="E1-schedule"), "kind_free_text": "stateless DFS over scheduler choice prefixes with a preemption bound; logical threads are coroutines switched only at the hooked atomic accesses of the real implementation"},
+   {"name": "grid", "path": "/verif/mc/src/props_buf.rs", "serves_properties": sorted(k for k,v in CHECKS.items() if v[0]=="grid"), "kind_free_text": "complete enumeration of a finite input grid against reference encodings"},
    {"name": "E2-history", "path": "/verif/mc/src/hist.rs", "serves_properties": sorted(k for k,v in CHECKS.items() if v[0]=="E2-history"), "kind_free_text": "depth-bounded exhaustive enumeration of operation histories on the real implementation, image-restore between histories"},
  ],
  "checks": checks,
